@@ -174,6 +174,15 @@ fn case_in(ctx: &Ctx, p: &GenProject, t: &mut Tape, rec: &Rec, dir: &Path) -> Ve
         return Ok(());
     };
     rec.class("projects");
+    if p.failing_defs > 0 {
+        rec.class("projects_with_definition_failing_ssa_after_cfg_warning");
+    }
+    if p.failing_templates.iter().any(|n| p.files.iter().any(|f| f.r.src.contains(&format!("= {n}(")))) {
+        rec.class("projects_with_failing_template_instantiated");
+    }
+    if p.bom_files > 0 {
+        rec.class("projects_with_byte_order_mark");
+    }
     let ndefs: usize = p.files.iter().map(|f| f.ast.defs.len()).sum();
     let nfind: usize = first.norm.values().sum();
     let cross = p.files.iter().any(|f| f.r.src.contains("component comp"));
